@@ -2,6 +2,7 @@ package wl
 
 import (
 	"context"
+	"encoding/binary"
 	"fmt"
 	"math/rand/v2"
 	"testing/synctest"
@@ -69,7 +70,7 @@ type runner struct {
 	cfg   Cfg
 	opts  ScriptOpts
 	w     *World
-	other *World // second kind: foreign-kind leakage + ahead-of-log bookmarks
+	other *World          // second kind: foreign-kind leakage + ahead-of-log bookmarks
 	ctx   context.Context //nolint:containedctx
 	ws    []*swatch
 	res   *Result
@@ -723,7 +724,22 @@ func (r *runner) garbageStep() {
 		break
 	}
 
-	switch k := r.rng.IntN(6); {
+	forgedPos := int64(0) // < 0: a bookmark with a valid cookie whose position field was overwritten with this negative value
+
+	k := r.rng.IntN(7)
+	if young := r.w.Len()+2 <= r.cfg.Initial-r.cfg.Gap; young && r.rng.IntN(2) == 0 {
+		k = 6 // while the whole log is still retained, positions before its start are the interesting garbage
+	}
+
+	switch {
+	case k == 6 && anyValid != nil && len(anyValid) >= 8:
+		// bookmarks are a cookie followed by a big-endian position (see the samples in any witness): positions before the start of
+		// the log - the statement's "malformed" class; -1 is what a bootstrap bookmark over an empty log carries, meaning "from the
+		// very beginning" for kind watches, and is below the first possible position of a single-resource watch
+		forgedPos = []int64{-1, -1, -2, -3, -10, -50}[r.rng.IntN(6)]
+		bm = append(state.Bookmark(nil), anyValid...)
+		binary.BigEndian.PutUint64(bm[len(bm)-8:], uint64(forgedPos))
+		what = fmt.Sprintf("valid bookmark with its position replaced by %d", forgedPos)
 	case k == 0:
 		n := r.rng.IntN(33)
 		bm = make(state.Bookmark, n)
@@ -777,6 +793,12 @@ func (r *runner) garbageStep() {
 	kinds := []string{"single", "kind", "agg"}
 	rec := &Rec{Kind: kinds[r.rng.IntN(3)], FromIdx: -2, AnyStart: true}
 	rec.Name = fmt.Sprintf("w%d-garbage-%s", len(r.ws), rec.Kind)
+
+	if forgedPos == -1 && rec.Kind != "single" {
+		// "from the very beginning": may be accepted while the beginning is still retained - then it is the exact log from entry 0
+		mayAccept = true
+		rec.AnyStart, rec.FromIdx = false, -1
+	}
 
 	if rec.Kind == "single" {
 		rec.ID = r.ids[r.rng.IntN(len(r.ids))]
